@@ -76,7 +76,7 @@ def run(ctx) -> None:
             P,
             no_inline={"join", "is_alive", "dispatch", "queue_events", "EventEmitter.start", "EventEmitter.stop", "BaseThread.start"},
             follow_attrs=False,
-            raising={r"emitter\.start": "Exception", r"self\._emitter_class": "Exception"},
+            raising={r"(emitter|\$elem\(.*\))\.start": "Exception", r"self\._emitter_class": "Exception"},
         )
         entries = observer_entries(P, cls)
         res, npaths = guarded_by(P, cls, FIELDS, "self._lock", entries, cfg)
